@@ -1115,6 +1115,7 @@ pub fn eval_overlap(spec: &GraphSpec, a_cfg: &RunCfg, k: u64) -> (Vec<Violation>
     // A: poll until its first function is in flight
     a.apply(Act::Poll);
     let mut runs = 1u64;
+    let mut stuck_other: Option<String> = None;
     for i in 0..k {
         let c = match i % 3 {
             0 => &o1,
@@ -1124,12 +1125,20 @@ pub fn eval_overlap(spec: &GraphSpec, a_cfg: &RunCfg, k: u64) -> (Vec<Violation>
         let mut s = make_stepper(&g, c);
         crate::cases::finish_default(s.as_mut(), false);
         runs += 1;
+        if !s.done() && stuck_other.is_none() {
+            // a clean run of functions that complete at once finishes on its own; if it
+            // cannot while A is suspended, A's presence is what stops it
+            stuck_other = Some(format!("other run #{i} ({}, reverse={}) did not finish while run A ({}) was suspended after its first poll: trace so far has {} events", c.api.name(), c.rev, a_cfg.api.name(), s.trace().len()));
+        }
     }
     crate::cases::finish_default(a.as_mut(), false);
     let ret = final_ret(a.as_ref());
     let trace = a.trace();
     let acts = a.acts().to_vec();
     let (mut viol, _) = check_run(&facts, a_cfg, &trace, &acts, &ret, &a.engine_violations());
+    if let Some(m) = stuck_other {
+        viol.push(v("C20", "interference", m));
+    }
     // alone, same actions
     let g2 = build_graph(spec);
     let mut solo = make_stepper(&g2, a_cfg);
@@ -1158,7 +1167,38 @@ pub fn overlap_histories(seed: u64) -> OverlapHistories {
     // 0 -> 1 -> 2, 0 -> 3, 4 alone
     let spec = GraphSpec { fns, edges: vec![(0, 1, Kind::Logic), (1, 2, Kind::Contains), (0, 3, Kind::Logic)], batches: vec![], add_mode: 0 };
     let shapes = [Shape::Stream, Shape::ForEach, Shape::Fold];
+    // big graphs (more than 1024 functions): a run suspended after its first poll must
+    // not hold anything another run needs, whatever set-up work the size triggers
+    let big_n = 1030 + (seed % 7) as usize;
+    let big_fns: Vec<TestFn> = (0..big_n).map(|id| TestFn { id, reads: vec![], writes: vec![] }).collect();
+    let big_specs = [
+        GraphSpec { fns: big_fns.clone(), edges: (1..big_n).map(|i| ((i - 1) / 8, i, if i % 3 == 0 { Kind::Contains } else { Kind::Logic })).collect(), batches: vec![], add_mode: 0 },
+        GraphSpec { fns: big_fns, edges: (0..big_n / 2).map(|i| (i, big_n - 1 - i, Kind::Logic)).collect(), batches: vec![], add_mode: 0 },
+    ];
     std::thread::scope(|sc| {
+        for (bi, spec) in big_specs.iter().enumerate() {
+            for (si, shape) in shapes.into_iter().enumerate() {
+                for rev in [false, true] {
+                    let res = &res;
+                    let a_cfg = overlap_base(shape, rev, spec.n());
+                    sc.spawn(move || {
+                        let k = 6u64;
+                        let (viol, runs, ret) = eval_overlap(spec, &a_cfg, k);
+                        let mut r = res.lock().unwrap();
+                        r.instances += 1;
+                        r.runs += runs + 1;
+                        r.hashes.push(hash_of(&(k, si, bi, rev, 1u8)));
+                        if r.violation.is_none() {
+                            if let Some(x) = viol.into_iter().find(|x| x.prop == "C20") {
+                                let dec = json!({"kind": "overlap-history", "spec": spec, "a_cfg": a_cfg, "other_runs": k});
+                                r.violation = Some((x, dec));
+                            }
+                        }
+                        let _ = ret;
+                    });
+                }
+            }
+        }
         for (ki, k) in [255u64, 256, 65_535, 65_536].into_iter().enumerate() {
             for (si, shape) in shapes.into_iter().enumerate() {
                 let res = &res;
